@@ -1452,6 +1452,12 @@ func (ro *RedisOutput) bisyncStartPoint(ctx context.Context, runIDs []string) (S
 		ro.logger.Infof("bisync startpoint parallel: checkpoint(%s), slots(%d), snapshot(%+v), records(%d), minSeq(%d), runIDs(%v)", checkpointName, len(slots), snapshot, len(records), minSeq, runIDs)
 		frontier, err := checkpoint.RebuildBisyncFrontier(snapshot, records)
 		bisyncFrontierRebuildGauge.Set(time.Since(begin).Seconds(), ro.cfg.InputName)
+		if errors.Is(err, checkpoint.ErrBisyncJournalGap) {
+			// lanes commit out of order : a stop can leave unit 2 journaled while unit 1 is not. The contiguous
+			// committed prefix is then empty, which is the frontier-miss case below, not a reason to refuse to start
+			ro.logger.Warnf("bisync startpoint parallel: checkpoint(%s), %v", checkpointName, err)
+			frontier, err = nil, nil
+		}
 		if err != nil {
 			return sp, 0, false, err
 		}
